@@ -888,7 +888,10 @@ func main() {
 		if a.Thorough() {
 			no = 800
 		}
-		writeOpenCases(res, a.Out, kOpenCases(vlib.NewRNG(a.Seed^0x6f70656e), res, no, 30000, 140000), 16)
+		oroot := vlib.NewRNG(a.Seed ^ 0x6f70656e)
+		oc := kOpenCases(oroot, res, no, 30000, 140000)
+		oc = append(oc, kOpenDirected(oroot, res)...)
+		writeOpenCases(res, a.Out, oc, 16)
 	}
 	// manifests of real DBs: (P) against the reference replay and the DB's own version, (K) against the Coq model
 	krec = append(krec, realManifestChecks(recRoot, res, a.Thorough())...)
